@@ -13,16 +13,15 @@ structure AccInv (a : ExpAcc) : Prop where
   ok : a.ok = true
   inv : Inv (accState a)
 
-theorem Inv.set_status {s : State} (h : Inv s) (id : Key) (st : Status) (hid : ∃ n, s.nodes.get id = some n) :
+theorem Inv.set_status {s : State} (h : Inv s) (id : Key) (st : Status) :
     Inv { s with status := s.status.set id st } := by
   refine { toIndexInv := h.toIndexInv.transfer rfl rfl rfl rfl rfl rfl, cl_sound := h.cl_sound,
            cl_compl := h.cl_compl, st_nodes := ?_, nodes_nodup := h.nodes_nodup }
-  intro id'
+  intro id' n hn
   simp only [Map.get_set]
   by_cases e : id = id'
-  · subst e; simp only [if_true]
-    exact ⟨fun _ => hid, fun _ => ⟨st, rfl⟩⟩
-  · simp only [e, if_false]; exact h.st_nodes id'
+  · exact ⟨st, by simp [e]⟩
+  · simp only [e, if_false]; exact h.st_nodes id' n hn
 
 /-- Removing a registered node together with its stake claim preserves the invariant. -/
 theorem removeNode_inv (s : State) (n : Node) (h : Inv s) (hn : s.nodes.get n.id = some n) :
@@ -30,43 +29,43 @@ theorem removeNode_inv (s : State) (n : Node) (h : Inv s) (hn : s.nodes.get n.id
   have hidx := removeNode_index s n h.toIndexInv hn
   refine { toIndexInv := hidx.transfer rfl rfl rfl rfl rfl rfl, cl_sound := ?_, cl_compl := ?_,
            st_nodes := ?_, nodes_nodup := ?_ }
-  · intro a c hc
+  · intro a c ths hc
     simp only [Map.get_del] at hc
     by_cases hp : (Addr.ent n.entity, Claim.node n.id) = (a, c)
     · simp [hp] at hc
     · simp only [hp, if_false] at hc
-      have hi := h.cl_sound a c hc
+      have hi := h.cl_sound a c ths hc
       cases c with
       | entity => exact hi
       | node id =>
-        obtain ⟨m, hm, ha⟩ := hi
+        obtain ⟨m, hm, ha, ht⟩ := hi
         have hne : ¬ n.id = id := by
           intro e; subst e; rw [hn] at hm; cases hm; exact hp (by rw [ha])
-        exact ⟨m, by simp [removeNode, Map.get_del, hne, hm], ha⟩
+        exact ⟨m, by simp [removeNode, Map.get_del, hne, hm], ha, ht⟩
       | runtime r => exact hi
-  · intro a c hi
+  · intro a c ths hi
     simp only [Map.get_del]
     cases c with
     | entity =>
       have hp : ¬ (Addr.ent n.entity, Claim.node n.id) = (a, Claim.entity) := by intro hh; cases hh
-      simp only [hp, if_false]; exact h.cl_compl a .entity hi
+      simp only [hp, if_false]; exact h.cl_compl a .entity ths hi
     | node id =>
-      obtain ⟨m, hm, ha⟩ := hi
+      obtain ⟨m, hm, ha, ht⟩ := hi
       simp only [removeNode, Map.get_del] at hm
       by_cases e : n.id = id
       · simp [e] at hm
       · simp only [e, if_false] at hm
         have hp : ¬ (Addr.ent n.entity, Claim.node n.id) = (a, Claim.node id) := by
           intro hh; cases hh; exact e rfl
-        simp only [hp, if_false]; exact h.cl_compl a (.node id) ⟨m, hm, ha⟩
+        simp only [hp, if_false]; exact h.cl_compl a (.node id) ths ⟨m, hm, ha, ht⟩
     | runtime r =>
       have hp : ¬ (Addr.ent n.entity, Claim.node n.id) = (a, Claim.runtime r) := by intro hh; cases hh
-      simp only [hp, if_false]; exact h.cl_compl a (.runtime r) hi
-  · intro id
-    simp only [removeNode, Map.get_del]
+      simp only [hp, if_false]; exact h.cl_compl a (.runtime r) ths hi
+  · intro id m hm
+    simp only [removeNode, Map.get_del] at hm ⊢
     by_cases e : n.id = id
-    · simp [e]
-    · simp only [e, if_false]; exact h.st_nodes id
+    · simp [e] at hm
+    · simp only [e, if_false] at hm ⊢; exact h.st_nodes id m hm
   · exact nodup_keys_del _ _ h.nodes_nodup
 
 theorem markExpired_nodes (s : State) (id : Key) (st : Status) : (markExpired s id st).nodes = s.nodes := by
@@ -78,12 +77,11 @@ theorem markExpired_params (s : State) (id : Key) (st : Status) : (markExpired s
 theorem markExpired_claims (s : State) (id : Key) (st : Status) : (markExpired s id st).claims = s.claims := by
   unfold markExpired; split <;> rfl
 
-theorem markExpired_inv {s : State} (h : Inv s) (id : Key) (st : Status) (hid : ∃ n, s.nodes.get id = some n) :
-    Inv (markExpired s id st) := by
+theorem markExpired_inv {s : State} (h : Inv s) (id : Key) (st : Status) : Inv (markExpired s id st) := by
   unfold markExpired
   split
   · exact h
-  · exact h.set_status id _ hid
+  · exact h.set_status id _
 
 theorem accState_markExpired (a : ExpAcc) (id : Key) (st : Status) :
     accState { a with s := markExpired a.s id st } = markExpired (accState a) id st := by
@@ -99,17 +97,17 @@ theorem expireOne_acc (e : Nat) (a : ExpAcc) (n : Node) (hA : AccInv a) (hn : a.
   simp only [hok, Bool.not_true, Bool.false_eq_true, if_false]
   split
   · exact ⟨hA, fun _ _ => rfl⟩
-  · obtain ⟨st, hst⟩ := (hI.st_nodes n.id).2 ⟨n, hn⟩
+  · obtain ⟨st, hst⟩ := hI.st_nodes n.id n hn
     have hst' : a.s.status.get n.id = some st := hst
     simp only [hst']
     have hI1 : Inv (accState { a with s := markExpired a.s n.id st }) := by
-      rw [accState_markExpired]; exact markExpired_inv hI n.id st ⟨n, hn⟩
+      rw [accState_markExpired]; exact markExpired_inv hI n.id st
     have hn1 : (markExpired a.s n.id st).nodes.get n.id = some n := by rw [markExpired_nodes]; exact hn
     split
     · exact ⟨⟨rfl, hI1⟩, fun id _ => by simp only [markExpired_nodes]⟩
     · split
       · have hcl : a.claims.has (Addr.ent n.entity, Claim.node n.id) = true :=
-          get_unit.2 (hI.cl_compl _ _ ⟨n, hn, rfl⟩)
+          has_eq_true.2 ⟨_, hI.cl_compl _ _ _ ⟨n, hn, rfl, rfl⟩⟩
         simp only [hcl, if_true]
         refine ⟨⟨rfl, ?_⟩, ?_⟩
         · exact removeNode_inv _ n hI1 hn1
@@ -191,5 +189,58 @@ theorem epochTransition_spec (s : State) (e : Nat) (h : Inv s) :
   unfold epochTransition
   simp only [hA.ok, if_true]
   exact ⟨trivial, hA.inv⟩
+
+/-! ### node status transactions and environment steps -/
+
+theorem unfreezeNode_spec (s : State) (t id : Key) :
+    (unfreezeNode s t id).1 = s ∨
+    ∃ n st, s.nodes.get id = some n ∧ t = n.entity ∧ s.status.get id = some st ∧ st.freezeEndTime ≤ s.epoch ∧
+      unfreezeNode s t id = ({ s with status := s.status.set id { st with freezeEndTime := 0 } }, .ok) := by
+  unfold unfreezeNode
+  split
+  · exact Or.inl rfl
+  · rename_i n hn
+    split
+    · exact Or.inl rfl
+    · rename_i ht
+      split
+      · exact Or.inl rfl
+      · rename_i st hst
+        split
+        · exact Or.inl rfl
+        · rename_i hf
+          exact Or.inr ⟨n, st, hn, by simpa using ht, hst, by omega, rfl⟩
+
+theorem unfreezeNode_inv (s : State) (t id : Key) (h : Inv s) : Inv (unfreezeNode s t id).1 := by
+  rcases unfreezeNode_spec s t id with e | ⟨_, _, _, _, _, _, e⟩
+  · rw [e]; exact h
+  · rw [e]; exact h.set_status id _
+
+theorem freezeNode_spec (s : State) (id : Key) (u : Nat) :
+    freezeNode s id u = s ∨
+    ∃ st, s.status.get id = some st ∧ freezeNode s id u = { s with status := s.status.set id { st with freezeEndTime := u } } := by
+  unfold freezeNode
+  split
+  · exact Or.inl rfl
+  · rename_i st hst; exact Or.inr ⟨st, hst, rfl⟩
+
+theorem freezeNode_inv (s : State) (id : Key) (u : Nat) (h : Inv s) : Inv (freezeNode s id u) := by
+  rcases freezeNode_spec s id u with e | ⟨_, _, e⟩
+  · rw [e]; exact h
+  · rw [e]; exact h.set_status id _
+
+theorem unfreezeNode_frame (s : State) (t id : Key) :
+    (unfreezeNode s t id).1.entities = s.entities ∧ (unfreezeNode s t id).1.nodes = s.nodes ∧
+    (unfreezeNode s t id).1.runtimes = s.runtimes ∧ (unfreezeNode s t id).1.claims = s.claims := by
+  rcases unfreezeNode_spec s t id with e | ⟨_, _, _, _, _, _, e⟩ <;> rw [e] <;> exact ⟨rfl, rfl, rfl, rfl⟩
+
+theorem freezeNode_frame (s : State) (id : Key) (u : Nat) :
+    (freezeNode s id u).entities = s.entities ∧ (freezeNode s id u).nodes = s.nodes ∧
+    (freezeNode s id u).runtimes = s.runtimes ∧ (freezeNode s id u).claims = s.claims := by
+  rcases freezeNode_spec s id u with e | ⟨_, _, e⟩ <;> rw [e] <;> exact ⟨rfl, rfl, rfl, rfl⟩
+
+theorem setBalance_inv (s : State) (a : Addr) (v : Nat) (h : Inv s) : Inv (setBalance s a v) :=
+  { toIndexInv := h.toIndexInv.transfer rfl rfl rfl rfl rfl rfl, cl_sound := h.cl_sound, cl_compl := h.cl_compl,
+    st_nodes := h.st_nodes, nodes_nodup := h.nodes_nodup }
 
 end OasisProofs.Registry
